@@ -67,6 +67,28 @@ var carryTable = map[string]struct {
 // differ, a scalar that is not a carry) stays subject to the per-function table.
 func carryShapeOK(m *model.Model, call *ssa.Call) string {
 	cal := call.Call.StaticCallee()
+	if cal != nil && cal.Name() == "shl10VU" && len(call.Call.Args) == 3 && sameSliceExpr(call.Call.Args[0], call.Call.Args[1]) {
+		// (N) in-place left shift by the number of leading zero digits of the top word: nothing
+		// can be shifted out (what dnorm does)
+		if c, ok := stripConv(call.Call.Args[2]).(*ssa.Call); ok {
+			if c2 := c.Call.StaticCallee(); c2 != nil && c2.Name() == "nlz10" {
+				return "in-place shift by nlz10 of the top word"
+			}
+		}
+		if ph, ok := stripConv(call.Call.Args[2]).(*ssa.Phi); ok {
+			all := len(ph.Edges) > 0
+			for _, e := range ph.Edges {
+				c, ok := stripConv(e).(*ssa.Call)
+				if !ok || c.Call.StaticCallee() == nil || c.Call.StaticCallee().Name() != "nlz10" {
+					all = false
+				}
+			}
+			if all {
+				return "in-place shift by nlz10 of the top word"
+			}
+		}
+		return ""
+	}
 	if cal == nil || !strings.HasSuffix(cal.Name(), "VW") || len(call.Call.Args) != 3 {
 		return ""
 	}
@@ -107,6 +129,16 @@ func sameSliceExpr(a, b ssa.Value) bool {
 	a, b = stripConv(a), stripConv(b)
 	if a == b {
 		return true
+	}
+	// two loads of the same field of the same object (z.mant, z.mant)
+	if la, ok := a.(*ssa.UnOp); ok && la.Op == token.MUL {
+		if lb, ok := b.(*ssa.UnOp); ok && lb.Op == token.MUL {
+			fa, ok1 := la.X.(*ssa.FieldAddr)
+			fb, ok2 := lb.X.(*ssa.FieldAddr)
+			if ok1 && ok2 && fa.Field == fb.Field && fa.X == fb.X {
+				return true
+			}
+		}
 	}
 	sa, ok1 := a.(*ssa.Slice)
 	sb, ok2 := b.(*ssa.Slice)
@@ -362,7 +394,7 @@ func runPool(m *model.Model, s *ob.Set) {
 		s.Check(rel, R, "dec.divRecursive/temps", m.Pos(fn.Pos()), "releases the temporaries collected by divRecursiveStep", "divRecursive no longer releases the temps slice")
 	}
 	if nsites < 2 {
-		model.Blind("POOL: only %d getDec sites found", nsites)
+		m.Blind("POOL: only %d getDec sites found", nsites)
 	}
 }
 
@@ -851,11 +883,50 @@ func runCmpSym(m *model.Model, s *ob.Set) {
 				continue
 			}
 			key := exprKey(m, bo.X, 5) + " ? " + exprKey(m, bo.Y, 5)
+			// `if a != b { if a < b { return -1 }; return +1 }`: under a != b the false edge of
+			// a < b is the case a > b
+			other := func() (int64, bool) {
+				r2, ok := constResultOnEdge(b, 1)
+				if !ok {
+					return 0, false
+				}
+				for _, gb := range fn.Blocks {
+					if len(gb.Instrs) == 0 {
+						continue
+					}
+					gi, ok := gb.Instrs[len(gb.Instrs)-1].(*ssa.If)
+					if !ok {
+						continue
+					}
+					ne, ok := gi.Cond.(*ssa.BinOp)
+					if !ok || (ne.Op != token.NEQ && ne.Op != token.EQL) {
+						continue
+					}
+					same := (structEq(ne.X, bo.X, 4) && structEq(ne.Y, bo.Y, 4)) || (structEq(ne.X, bo.Y, 4) && structEq(ne.Y, bo.X, 4))
+					if !same {
+						continue
+					}
+					edge := 0
+					if ne.Op == token.EQL {
+						edge = 1
+					}
+					if m.EdgeDominates(gb, edge, b) {
+						return r2, true
+					}
+				}
+				return 0, false
+			}
 			switch bo.Op {
 			case token.LSS:
 				lt[key] = ent{res, m.InstrPos(ifi), b}
+				if r2, ok := other(); ok {
+					gt[key] = ent{r2, m.InstrPos(ifi), b}
+				}
 			case token.GTR:
 				gt[key] = ent{res, m.InstrPos(ifi), b}
+				if r2, ok := other(); ok {
+					lt[key] = ent{r2, m.InstrPos(ifi), b}
+				}
 			case token.LEQ, token.GEQ:
 				if res != 0 {
 					nonStrict = append(nonStrict, m.InstrPos(ifi)+": non-strict comparison "+bo.Op.String()+" decides the result "+fmt.Sprint(res))
@@ -1011,7 +1082,7 @@ func runMustFlow(m *model.Model, s *ob.Set) {
 		}
 	}
 	if n < 3 {
-		model.Blind("MUSTFLOW: only %d dnorm call sites found", n)
+		m.Blind("MUSTFLOW: only %d dnorm call sites found", n)
 	}
 	// SetBitsExp: stripped words
 	{
@@ -1185,7 +1256,7 @@ func runModeOrder(m *model.Model, s *ob.Set) {
 		}
 	}
 	if n < 2 {
-		model.Blind("MODE: only %d functions writing a rounding mode found", n)
+		m.Blind("MODE: only %d functions writing a rounding mode found", n)
 	}
 }
 
